@@ -100,7 +100,7 @@ Qed.
 
 Theorem pnest_top : forall n tr zshape m lv keys m0 e zt,
   pnest lv = true -> depth_ok (n_pop lv) zt = true -> env_ok e -> nest_pos_ok tr 0 lv e ->
-  let evs := fst (run false tr zshape (n_pop lv) m lv 0 [] e {| th_z := Some zt; th_lab := lab0 |}) in
+  let evs := fst (run tr zshape (n_pop lv) m lv 0 [] e {| th_z := Some zt; th_lab := lab0 |}) in
   let st' := exec n (init_state keys true m0) evs in
   let d := dr lv [([], e)] in
   m_lo st' = iota d
@@ -127,10 +127,10 @@ Qed.
 (* the whole oracle for nests with a populate prefix, when no destination-side trace is registered *)
 Theorem model_meets_spec_pnest : forall c,
   c16_wf c = true -> c16_region c = 0 -> pnest (k_levels c) = true ->
-  forallb (fun k => negb (is_zside (key_kind k))) (k_keys c) = true -> k_ref c = false ->
+  forallb (fun k => negb (is_zside (key_kind k))) (k_keys c) = true ->
   c16_holds c (c16_model c) = true.
 Proof.
-  intros c Hwf Hreg Hpn Hnz Hkr.
+  intros c Hwf Hreg Hpn Hnz.
   destruct (n_pop (k_levels c)) as [|np] eqn:Enp.
   { apply model_meets_spec_eager; auto. apply pnest_eager; auto. }
   pose proof (wf_env_ok c Hwf) as Henv.
@@ -164,9 +164,9 @@ Proof.
               (region0_pos_ok c Hreg Hlen (fun j => Hprj j Hpn))) as [_ Hall].
   destruct (Hall k Hk) as (data & Hc & Hok).
   assert (Est : exec 0 (init_state (k_keys c) true false)
-                  (fst (run false (traced c) (k_zshape c) (n_pop (k_levels c)) (k_skip c) (k_levels c) 0 []
+                  (fst (run (traced c) (k_zshape c) (n_pop (k_levels c)) (k_skip c) (k_levels c) 0 []
                             (k_inputs c) {| th_z := Some (k_z c); th_lab := lab0 |})) = st).
-  { unfold st, c16_events, z_in. rewrite Enp, Hkr. reflexivity. }
+  { unfold st, c16_events, z_in. rewrite Enp. reflexivity. }
   rewrite Est in Hc.
   rewrite (files_of_alt c st k). fold (content st k). rewrite Hc, rows_of_V_rows.
   apply trace_ok_of_spec2; auto; try lia; try (apply traced_in; auto);
